@@ -18,7 +18,11 @@ CallMatches(call, tree, i) ==
   /\ (tree[i].t \in {"file", "symlink"} => call.size = tree[i].size)
   /\ (tree[i].t = "dir" => call.size = "0")
   \* first member of an inode group is the file, later members are links naming the first
-  /\ HLRaw(call.hl) = (IF tree[i].t = "file" THEN HLOf(tree, i) ELSE <<>>)
+  \* (the statement speaks of regular files; for device nodes and fifos sharing an inode the walker may name the first
+  \* member too or report each on its own; directories and symlinks never carry a hard-link name)
+  /\ (IF tree[i].t = "file" THEN HLRaw(call.hl) = HLOf(tree, i)
+      ELSE IF tree[i].t \in {"dir", "symlink"} THEN HLRaw(call.hl) = <<>>
+      ELSE HLRaw(call.hl) \in {<<>>, HLOf(tree, i)})
 
 WalkClauses(calls, tree, sub) ==
   \* a sub-target walk reports the target and what is below it: sorted, but its ancestors are absent
